@@ -87,6 +87,17 @@ def gen_collection(rng, n=None, uniform=None):
     modes = getattr(first, "modes", None)
     uniform = rng.random() < 0.8 if uniform is None else uniform
     out = [first]
+    if not uniform and rng.random() < 0.4:
+        # different classes sharing ONE data layout (3-D perturbed vs axisymmetric, same number of modes)
+        modes = rng.randint(1, 4)
+        out = [gen_droplet(rng, rng.choice(["PerturbedDroplet3D", "PerturbedDroplet3DAxisSym"]), 3, modes) for _ in range(n)]
+        for d in out:
+            d.position[:2] = 0.0
+        if n >= 2 and len({type(d) for d in out}) == 1:
+            other = "PerturbedDroplet3DAxisSym" if type(out[0]).__name__ == "PerturbedDroplet3D" else "PerturbedDroplet3D"
+            out[-1] = gen_droplet(rng, other, 3, modes)
+            out[-1].position[:2] = 0.0
+        return out
     for _ in range(n - 1):
         if uniform:
             out.append(gen_droplet(rng, cls, first.dim, modes))
